@@ -62,6 +62,7 @@ var verifyReqs = []verifyReq{
 	req("hashConfig", "Verify", "InputLen ≤ 8", "8-byte loads", -8, "InputLen", 1),
 	req("hashConfig", "Verify", "0 ≤ HashBits", "1 << HashBits table", 0, "HashBits", -1),
 	req("hashConfig", "Verify", "HashBits ≤ 24", "table allocation", -24, "HashBits", 1),
+	req("hashConfig", "Verify", "HashBits ≤ 8·InputLen", "hash.init repeats the check; the hash uses only 8·InputLen input bits", 0, "HashBits", 1, "InputLen", -8),
 	// hash.init(inputLen, hashBits): parameters are addressed by position (#1, #2), not by name
 	req("hash", "init", "2 ≤ inputLen", "hash.init agrees with hashConfig.Verify", 2, "#1", -1),
 	req("hash", "init", "inputLen ≤ 8", "hash.init agrees with hashConfig.Verify", -8, "#1", 1),
